@@ -586,7 +586,7 @@ Section Accept.
     assert (En : nonnil hs = true) by (destruct hs; [congruence|reflexivity]). rewrite En.
     destruct T as [|c T']; [reflexivity|].
     assert (H46 : (c =? 46)%N = false) by (cbn [tail_ok] in HT; unfold tailc in HT; lia).
-    pose proof (exp_match_none [112; 80]%N (ishex ud) true _ (tail_stops_p ud _ HT)) as Hexp.
+    pose proof (exp_match_none [112; 80]%N (isd ud) false _ (tail_stops_p ud _ HT)) as Hexp.
     clear HT E1. destruct c as [|p]; [lazy beta iota zeta; rewrite Hexp; reflexivity|].
     repeat (destruct p as [p|p|]; try (lazy beta iota zeta; rewrite Hexp; reflexivity)).
     discriminate H46.
